@@ -5,7 +5,7 @@ from __future__ import annotations
 
 import ast
 
-from ..core import AnalysisError, Check, Scope, norm, strip_docstring, walk_no_nested
+from ..core import AnalysisError, Check, Scope, norm, str_parts, strip_docstring, walk_no_nested
 from ..interp import Sym, SymInterp
 from ..variants import Variant
 
@@ -84,6 +84,8 @@ class C05(Check):
         "L4": "repacked stoichiometry changes each substrate occurrence by exactly -1 and each product occurrence by +1",
         "L6": "initial label placement addresses isotopomers by string position (position i <-> i-th character from the left, the "
               "convention of the pattern generator and of the map reader); addressing by bit significance (1 << i) mirrors the positions",
+        "L10": "dataflow of one pattern: stoichiometry = repack(substrates labelled by the pattern cut by the substrates' label counts, products labelled "
+               "by the mapped pattern cut by the products' label counts), rate arguments renamed to exactly those isotopomers",
         "L9": "the concatenated labelling pattern is cut into consecutive windows, compound k getting exactly its own number of positions "
               "(window arithmetic for three compounds, symbolic label counts)",
         "L8": "totals are preserved at the start: every isotopomer of a labelled compound starts at 0 and the whole initial amount goes to "
@@ -92,7 +94,7 @@ class C05(Check):
               "positions refer to atoms in that order",
         "L5": "positions beyond the substrates enter labelled: external labels are '1' x (product labels - substrate labels)",
     }
-    floors = {"L1": 1, "L2": 3, "L3": 1, "L4": 2, "L5": 1, "L6": 1, "L7": 2, "L8": 2, "L9": 1}
+    floors = {"L1": 1, "L2": 3, "L3": 1, "L4": 2, "L5": 1, "L6": 1, "L7": 2, "L8": 2, "L9": 1, "L10": 2}
     decided = [
         "one isotopomer reaction per substrate labelling pattern, none skipped",
         "a map shorter than the substrates' atoms is rejected before any reaction is created",
@@ -107,59 +109,187 @@ class C05(Check):
 
     def run(self) -> None:
         mod = self.prog.module(MOD)
+        self.reactions(mod)
+
+    # ------------------------------------------------------------------
+    def reactions(self, mod) -> None:
+        """_create_isotopomer_reactions, decided on its path summaries: every local is substituted away, so the add_reaction call of
+        one loop iteration carries the whole dataflow from (stoichiometry, label counts, map) to the created reaction as one
+        expression; known sub-expressions are abbreviated bottom-up (BS, LS, S, EXT, PAT, SUF, MAPPED, NS, NP) and the rules read the rest."""
+        import sympy
+
         fn = mod.func("_create_isotopomer_reactions")
         q = fn.name
-        sc = Scope(fn)
-        body = strip_docstring(fn.body)
-        loops = [s for s in body if isinstance(s, ast.For)]
+        out = SymInterp().run_function(fn, Sym())
+        sigs = {n: [a_.arg for a_ in f.args.posonlyargs + f.args.args] for n, f in mod.functions.items() if "." not in n}
+
+        class Abbrev(ast.NodeTransformer):
+            def kw(self_i, c: ast.Call) -> dict[str, str] | None:
+                name = norm(c.func)
+                d = {}
+                for i, a_ in enumerate(c.args):
+                    if name not in sigs or i >= len(sigs[name]):
+                        return None
+                    d[sigs[name][i]] = norm(a_)
+                for k in c.keywords:
+                    if k.arg is None:
+                        return None
+                    d[k.arg] = norm(k.value)
+                return d
+
+            def visit_Subscript(self_i, n):
+                self_i.generic_visit(n)
+                if isinstance(n.value, ast.Call) and norm(n.value.func) == "_unpack_stoichiometries" and self_i.kw(n.value) == {"stoichiometries": "stoichiometry"} \
+                        and norm(n.slice) in ("0", "1"):
+                    return ast.Name(id="BS" if norm(n.slice) == "0" else "BP", ctx=ast.Load())
+                return n
+
+            def visit_BinOp(self_i, n):
+                self_i.generic_visit(n)
+                if isinstance(n.op, ast.Add) and norm(n.left) == "''.join(PAT)" and norm(n.right) == "EXT":
+                    return ast.Name(id="SUF", ctx=ast.Load())
+                return n
+
+            def visit_Call(self_i, n):
+                self_i.generic_visit(n)
+                name = norm(n.func)
+                kw = self_i.kw(n)
+                table = {
+                    ("_get_labels_per_variable", (("compounds", "BS"), ("label_variables", "label_variables"))): "LS",
+                    ("_get_labels_per_variable", (("compounds", "BP"), ("label_variables", "label_variables"))): "LP",
+                    ("_get_external_labels", (("total_product_labels", "P"), ("total_substrate_labels", "S"))): "EXT",
+                    ("_map_substrates_to_products", (("labelmap", "labelmap"), ("rate_suffix", "SUF"))): "MAPPED",
+                    ("_split_label_string", (("label", "SUF"), ("labels_per_compound", "LS"))): "SPLIT_S",
+                    ("_split_label_string", (("label", "MAPPED"), ("labels_per_compound", "LP"))): "SPLIT_P",
+                    ("_assign_compound_labels", (("base_compounds", "BS"), ("label_suffixes", "SPLIT_S"))): "NS",
+                    ("_assign_compound_labels", (("base_compounds", "BP"), ("label_suffixes", "SPLIT_P"))): "NP",
+                }
+                if kw is not None and (name, tuple(sorted(kw.items()))) in table:
+                    return ast.Name(id=table[(name, tuple(sorted(kw.items())))], ctx=ast.Load())
+                if name == "sum" and len(n.args) == 1 and not n.keywords and norm(n.args[0]) in ("LS", "LP"):
+                    return ast.Name(id="S" if norm(n.args[0]) == "LS" else "P", ctx=ast.Load())
+                if name == "len" and len(n.args) == 1 and norm(n.args[0]) == "labelmap":
+                    return ast.Name(id="M", ctx=ast.Load())
+                if name == "ITEM" and len(n.args) == 2 and isinstance(n.args[1], ast.Call) and norm(n.args[1].func) in ("it.product", "itertools.product", "product"):
+                    pr = n.args[1]
+                    kws = {k.arg: norm(k.value) for k in pr.keywords}
+                    if len(pr.args) == 1 and norm(pr.args[0]) in ("('0', '1')", "'01'", "['0', '1']", "('0', '1')") and kws == {"repeat": "S"}:
+                        return ast.Name(id="PAT", ctx=ast.Load())
+                return n
+
+        def abbrev(txt: str) -> ast.AST:
+            return Abbrev().visit(ast.parse(txt, mode="eval").body)
+
+        loops = [s_ for s_ in strip_docstring(fn.body) if isinstance(s_, ast.For)]
         if len(loops) != 1:
             raise AnalysisError(f"{q}: pattern loop not recognised")
         loop = loops[0]
-        # L1
-        guard = None
-        for s in body[: body.index(loop)]:
-            if isinstance(s, ast.If) and any(isinstance(x, ast.Raise) for x in s.body):
-                t = norm(s.test).replace(" ", "")
-                if t in ("len(labelmap)-total_substrate_labels<0", "len(labelmap)<total_substrate_labels", "total_substrate_labels>len(labelmap)"):
-                    guard = s
-        tot = [s for s in body if isinstance(s, ast.Assign) and norm(s.targets[0]) == "total_substrate_labels"]
-        tot_ok = tot and norm(tot[0].value) == "sum(labels_per_substrate)"
-        if guard is not None and tot_ok and not any(isinstance(x, (ast.Return,)) for s in body[: body.index(loop)] for x in ast.walk(s)):
-            self.holds("L1", MOD, q, "short-map-rejected", guard, f"`{norm(guard.test)}` raises before the pattern loop")
+        add_paths = []
+        for st, _ in out.returns:
+            adds = [e[1] for e in st.events if e[0] == "call" and e[1].startswith("model.add_reaction(")]
+            if adds:
+                add_paths.append((st, [abbrev(a_) for a_ in adds]))
+        if not add_paths:
+            raise AnalysisError(f"{q}: no path creates a reaction")
+
+        # L1: a rejection `len(labelmap) < total substrate labels` is decided (and survived) on every path that creates reactions
+        def rejects_short(cond_txt: str, pol: bool) -> bool:
+            """(cond, pol) holds exactly when M < S (integers)."""
+            try:
+                t = abbrev(cond_txt)
+            except SyntaxError:
+                return False
+            if not (isinstance(t, ast.Compare) and len(t.ops) == 1):
+                return False
+            M, S = sympy.symbols("M S", integer=True)
+
+            def lin(e):
+                if isinstance(e, ast.Name) and e.id in ("M", "S"):
+                    return {"M": M, "S": S}[e.id]
+                if isinstance(e, ast.Constant) and isinstance(e.value, int):
+                    return sympy.Integer(e.value)
+                if isinstance(e, ast.BinOp) and isinstance(e.op, (ast.Add, ast.Sub)):
+                    l_, r_ = lin(e.left), lin(e.right)
+                    return l_ + r_ if isinstance(e.op, ast.Add) else l_ - r_
+                if isinstance(e, ast.UnaryOp) and isinstance(e.op, ast.USub):
+                    return -lin(e.operand)
+                raise ValueError
+            try:
+                d = lin(t.left) - lin(t.comparators[0])
+            except ValueError:
+                return False
+            op = type(t.ops[0])
+            if not pol:
+                op = {ast.Lt: ast.GtE, ast.LtE: ast.Gt, ast.Gt: ast.LtE, ast.GtE: ast.Lt}.get(op)
+            # condition <=> E >= 1 over the integers
+            E = {ast.Gt: d, ast.GtE: d + 1, ast.Lt: -d, ast.LtE: -d + 1}.get(op)
+            return E is not None and sympy.simplify(E - (S - M)) == 0
+
+        guard_ok = all(any(rejects_short(c, not p) for c, p in st.conds) for st, _ in add_paths)
+        raised = any(rejects_short(c, p) for st, _, _ in out.raises for c, p in st.conds[-1:])
+        gnode = [s_ for s_ in strip_docstring(fn.body) if isinstance(s_, ast.If) and any(isinstance(x, ast.Raise) for x in ast.walk(s_))]
+        early_return = any(isinstance(x, ast.Return) for s_ in strip_docstring(fn.body)[: strip_docstring(fn.body).index(loop)] for x in ast.walk(s_))
+        if guard_ok and raised and not early_return:
+            self.holds("L1", MOD, q, "short-map-rejected", gnode[0] if gnode else fn, "a map shorter than the substrates' label positions raises before the pattern loop")
         else:
-            self.violated("L1", MOD, q, "short-map-rejected", guard or fn,
+            self.violated("L1", MOD, q, "short-map-rejected", gnode[0] if gnode else fn,
                           "no rejection of a map shorter than the substrates' label positions dominates reaction creation",
                           witness="A(2 labels) -> B(2 labels) with labelmap [0]: reactions are created from a truncated product pattern instead of ValueError")
-        # L2
-        it_ = norm(loop.iter).replace(" ", "")
-        full = "it.product(('0','1'),repeat=total_substrate_labels)" in it_ and "if" not in it_.split("repeat")[1]
-        if full:
+        # L2: the loop ranges over all substrate patterns, unfiltered
+        calls = [c for _, cs in add_paths for c in cs]
+        names_pat = all(any(isinstance(x, ast.Name) and x.id in ("PAT", "SUF") for x in ast.walk(c)) for c in calls)
+        it_src = loop.iter.generators[0].iter if isinstance(loop.iter, (ast.GeneratorExp, ast.ListComp)) and len(loop.iter.generators) == 1 else loop.iter
+        filtered = isinstance(loop.iter, (ast.GeneratorExp, ast.ListComp)) and (len(loop.iter.generators) != 1 or loop.iter.generators[0].ifs)
+        src_ok = norm(abbrev(SymInterp().text(it_src, add_paths[0][0]))) in ("it.product(('0', '1'), repeat=S)", "it.product('01', repeat=S)", "it.product(['0', '1'], repeat=S)",
+                                                                               "itertools.product(('0', '1'), repeat=S)", "itertools.product('01', repeat=S)")
+        if src_ok and not filtered:
             self.holds("L2", MOD, q, "full-pattern-space", loop, "iterates it.product(('0','1'), repeat=total_substrate_labels), unfiltered")
         else:
             self.violated("L2", MOD, q, "full-pattern-space", loop, f"pattern loop `{norm(loop.iter)}` does not range over all substrate labelling patterns",
                           witness="an isotopomer of the substrate has no consuming reaction: label disappears from the dynamics")
-        adds = [i for i, s in enumerate(loop.body) if isinstance(s, ast.Expr) and norm(s.value).startswith("model.add_reaction(")]
+        adds = [i for i, s_ in enumerate(loop.body) if isinstance(s_, ast.Expr) and norm(s_.value).startswith("model.add_reaction(")]
         skips = [x for x in walk_no_nested(loop) if isinstance(x, (ast.If, ast.Continue, ast.Break, ast.Return, ast.Try))]
-        if len(adds) == 1 and not skips:
+        if len(adds) == 1 and not skips and all(len(cs) == 1 for _, cs in add_paths):
             self.holds("L2", MOD, q, "one-reaction-per-pattern", loop.body[adds[0]], "add_reaction is the unconditional last step of every iteration")
         else:
             self.violated("L2", MOD, q, "one-reaction-per-pattern", skips[0] if skips else loop,
                           "a labelling pattern can be skipped or produce several reactions",
                           witness="multiply labelled substrates are never consumed (or consumed twice)")
-        call = loop.body[adds[0]].value if adds else None
-        kw = {k.arg: norm(k.value) for k in call.keywords} if call else {}
-        name_src = [s for s in loop.body if isinstance(s, ast.Assign) and norm(s.targets[0]) == kw.get("name")]
-        if name_src and loop.target.id in {n.id for n in ast.walk(name_src[0].value) if isinstance(n, ast.Name)} \
-                and kw.get("stoichiometry") == "new_stoichiometry":
-            self.holds("L2", MOD, q, "pattern-in-name", name_src[0], "reaction name contains the substrate pattern (unique per pattern)")
+        call = calls[0]
+        kw = {k.arg: k.value for k in call.keywords}
+        name_ok = "name" in kw and any(isinstance(x, ast.Name) and x.id in ("PAT", "SUF") for x in ast.walk(kw["name"])) and "rate_name" in norm(kw["name"])
+        anchor = loop.body[adds[0]] if adds else loop
+        if name_ok:
+            self.holds("L2", MOD, q, "pattern-in-name", anchor, "reaction name contains the substrate pattern (unique per pattern)")
         else:
-            self.violated("L2", MOD, q, "pattern-in-name", call or loop, "isotopomer reactions are not named by their pattern: later ones collide with / overwrite earlier ones")
-        ext = [i for i, s in enumerate(loop.body) if isinstance(s, ast.AugAssign) and norm(s.target) == loop.target.id and norm(s.value) == "external_labels"]
-        mapc = [i for i, s in enumerate(loop.body) if "_map_substrates_to_products(" in norm(s)]
-        if ext and mapc and ext[0] < mapc[0]:
-            self.holds("L5", MOD, q, "external-appended-before-mapping", loop.body[ext[0]], "external labels are appended to the pattern before it is mapped")
+            self.violated("L2", MOD, q, "pattern-in-name", anchor, "isotopomer reactions are not named by their pattern: later ones collide with / overwrite earlier ones")
+        # L5 / L10: the dataflow from the pattern to the stoichiometry and the argument list
+        st_txt = norm(kw.get("stoichiometry")) if "stoichiometry" in kw else "?"
+        mapped_from_suf = any(isinstance(x, ast.Name) and x.id in ("MAPPED", "NP", "SPLIT_P") for x in ast.walk(call))
+        if mapped_from_suf:
+            self.holds("L5", MOD, q, "external-appended-before-mapping", anchor, "the map reads the pattern with the external labels already appended")
         else:
-            self.violated("L5", MOD, q, "external-appended-before-mapping", loop, "external label positions are not appended before mapping: maps naming them fail or read substrate atoms")
+            self.violated("L5", MOD, q, "external-appended-before-mapping", anchor, "external label positions are not appended before mapping: maps naming them fail or read substrate atoms")
+        if st_txt == "_repack_stoichiometries(new_substrates=NS, new_products=NP)":
+            self.holds("L10", MOD, q, "pattern-to-stoichiometry", anchor, "substrates are labelled by the pattern, products by the mapped pattern, each cut by its own label counts, in declared order")
+        else:
+            self.violated("L10", MOD, q, "pattern-to-stoichiometry", anchor,
+                          f"the created stoichiometry is `{st_txt[:160]}`, not repack(substrates labelled by the pattern / products by the mapped pattern)",
+                          witness="A__10 -> B with the identity map: the product isotopomer does not carry the substrate's label")
+        args_txt = norm(kw.get("args")) if "args" in kw else "?"
+        ok_args = args_txt in (
+            "[(dict(zip(BS, NS, strict=True)) | dict(zip(BP, NP, strict=True))).get(k, k) for k in args]",
+            "[dict(zip(it.chain(BS, BP), it.chain(NS, NP), strict=True)).get(k, k) for k in args]",
+            "[(dict(zip(BS, NS)) | dict(zip(BP, NP))).get(k, k) for k in args]",
+        )
+        if ok_args and norm(kw.get("fn")) == "function":
+            self.holds("L10", MOD, q, "rate-arguments-renamed", anchor, "the rate law's arguments are renamed to the isotopomers taking part (substrates and products), others kept")
+        else:
+            self.violated("L10", MOD, q, "rate-arguments-renamed", anchor, f"rate arguments `{args_txt[:140]}` are not the base arguments with substrates/products replaced by their isotopomers",
+                          witness="the isotopomer reaction's rate reads the total pool / the wrong isotopomer")
+        self.helpers(mod)
+
+    def helpers(self, mod) -> None:
         g = mod.func("_get_external_labels")
         ok_ext = True
         paths = SymInterp().run_function(g, Sym()).returns
@@ -218,28 +348,61 @@ class C05(Check):
                 self.violated("L4", MOD, rp.name, cons, rp, f"occurrences in {w[3]} do not change the coefficient by exactly {'-' if w[1] == 'Sub' else '+'}1: {aug}",
                               witness="2 A -> B: the isotopomer reaction consumes one A instead of two")
 
+        self.l8(mod)
         self.l6(mod)
         self.l7(mod)
-        self.l8(mod)
 
     def l8(self, mod) -> None:
+        """Initial amounts, from the path summaries of one iteration of the loop over the base model's initial conditions."""
         bm = mod.func("LabelMapper.build_model")
         q = "LabelMapper.build_model"
-        lp = [l for l in ast.walk(bm) if isinstance(l, ast.For) and norm(l.iter) == "self.model.get_initial_conditions().items()"]
+        lp = [l for l in ast.walk(bm) if isinstance(l, ast.For) and norm(l.iter) == "self.model.get_initial_conditions().items()"
+              and isinstance(l.target, ast.Tuple) and len(l.target.elts) == 2]
         if not lp:
             self.undecided_ob("L8", MOD, q, "initial-amounts", bm, "loop over the base model's initial conditions not found")
             return
-        t = " ".join(norm(lp[0]).split())
-        zero = "d = zip(isos, it.repeat(0), strict=False) variables.update(d)" in t or "dict.fromkeys(isos, 0" in t
-        unl = "if label_pos is None: variables[isos[0]] = v" in t
-        plain = "if (isos := isotopomers.get(k)) is None: variables[k] = v" in t
-        if zero and unl:
+        k, v = norm(lp[0].target.elts[0]), norm(lp[0].target.elts[1])
+        interp = SymInterp()
+        out = interp.block(lp[0].body, [Sym()])
+        paths = list(out.normal) + list(out.continues)
+        ISOS = f"isotopomers.get({k})"
+        plain_ok = lab_ok = True
+        seen_plain = seen_default = False
+        self.l6_keys: list[tuple[str, ast.AST]] = []
+        self.l6_k = k
+        for st in paths:
+            stores = [e for e in st.events if e[0] == "store"]
+            calls = [e[1] for e in st.events if e[0] == "call"]
+            none_isos = any(c == f"{ISOS} is None" and p_ for c, p_ in st.conds) or any(c in (f"{k} in isotopomers", f"{ISOS} is not None") and not p_ for c, p_ in st.conds)
+            if none_isos:
+                seen_plain = True
+                if [(e[1], e[2]) for e in stores] != [(f"variables[{k}]", v)] or calls:
+                    plain_ok = False
+                continue
+            zero = any(c.replace(" ", "") in (f"variables.update(zip({ISOS},it.repeat(0),strict=False))", f"variables.update(dict.fromkeys({ISOS},0))",
+                                              f"variables.update(dict.fromkeys({ISOS},0.0))", f"variables.update(zip({ISOS},it.repeat(0.0),strict=False))") for c in calls)
+            vs = [e for e in stores if e[2] == v]
+            if not zero or len(vs) != 1 or len(stores) != 1:
+                lab_ok = False
+                continue
+            # the zeroing must come first
+            order = [e for e in st.events if e[0] in ("call", "store")]
+            if order.index(vs[0]) < min(i for i, e in enumerate(order) if e[0] == "call" and "variables.update(" in e[1]):
+                lab_ok = False
+            no_request = any(c == f"initial_labels.get({k}) is None" and p_ for c, p_ in st.conds)
+            if no_request:
+                seen_default = True
+                if vs[0][1] != f"variables[{ISOS}[0]]":
+                    lab_ok = False
+            else:
+                self.l6_keys.append((vs[0][1], st))
+        if lab_ok and seen_default:
             self.holds("L8", MOD, q, "one-isotopomer-carries-the-total", lp[0], "all isotopomers start at 0; without a request the unlabelled one (isos[0]) receives the whole amount")
         else:
             self.violated("L8", MOD, q, "one-isotopomer-carries-the-total", lp[0],
                           "the initial amount of a labelled compound is not placed on exactly one isotopomer (all others 0, unlabelled one by default)",
                           witness="the summed isotopomers of a compound do not start at the base model's initial value, or start fully labelled")
-        if plain:
+        if plain_ok and seen_plain:
             self.holds("L8", MOD, q, "unlabelled-compounds-keep-value", lp[0], "compounds without label positions keep their initial value")
         else:
             self.violated("L8", MOD, q, "unlabelled-compounds-keep-value", lp[0], "compounds without label positions do not keep their initial value")
@@ -247,6 +410,39 @@ class C05(Check):
     def l6(self, mod) -> None:
         bm = mod.func("LabelMapper.build_model")
         q = "LabelMapper.build_model"
+        # requested label positions: the key of the store, as string parts, on every path that has a request
+        keys = getattr(self, "l6_keys", [])
+        if keys:
+            good = 0
+            for key_txt, st in keys:
+                try:
+                    key = ast.parse(key_txt, mode="eval").body
+                except SyntaxError:
+                    break
+                parts = str_parts(key.slice) if isinstance(key, ast.Subscript) else None
+                k = self.l6_k
+                if not parts or len(parts) != 3 or parts[0] != k or parts[1] != "'__'":
+                    break
+                try:
+                    j = ast.parse(parts[2], mode="eval").body
+                except SyntaxError:
+                    break
+                g = j.args[0] if isinstance(j, ast.Call) and norm(j.func) == "''.join" and len(j.args) == 1 else None
+                if not (isinstance(g, (ast.GeneratorExp, ast.ListComp)) and len(g.generators) == 1 and not g.generators[0].ifs
+                        and norm(g.generators[0].iter) == f"range(self.label_variables[{k}])" and isinstance(g.elt, ast.IfExp)):
+                    break
+                idx = norm(g.generators[0].target)
+                t = g.elt.test
+                pos_ok = isinstance(t, ast.Compare) and len(t.ops) == 1 and isinstance(t.ops[0], ast.In) and norm(t.left) == idx \
+                    and norm(t.comparators[0]) in (f"initial_labels.get({k})", f"[initial_labels.get({k})]")
+                if pos_ok and norm(g.elt.body) == "'1'" and norm(g.elt.orelse) == "'0'":
+                    good += 1
+                else:
+                    break
+            if good == len(keys):
+                node = [s_ for s_ in ast.walk(bm) if isinstance(s_, ast.IfExp) and norm(s_.body) == "'1'" and norm(s_.orelse) == "'0'"]
+                self.holds("L6", MOD, q, "initial-label-position", node[0] if node else bm, "suffix built character by character: position i is the i-th character from the left")
+                return
         stores = [s for s in ast.walk(bm) if isinstance(s, ast.Assign) and isinstance(s.targets[0], ast.Subscript) and norm(s.targets[0].value) == "variables"
                   and norm(s.value) == "v" and norm(s.targets[0].slice) not in ("k", "isos[0]", "isos[-1]")]
         if not stores:
